@@ -52,6 +52,12 @@ CHECKS = {
  "C08": ("E1-enum", "bounded exhaustive enumeration of type definitions (kinds x nesting positions x tag strings x duplicate arrangements) against the reference acceptance model, with a behavioural battery and a registry-poisoning probe",
    "Every supported representative and every unsupported kind in 19 nesting positions x 4 configurations, the full 24-tag x 15-kind matrix, duplicate-index arrangements, skipped/unexported/blank fields, failing recursive definitions in every probe order: no panic; documented-invalid => non-empty error; accepted => round-trip and Size/Append battery on zero and non-zero values; after any rejection every independently valid sub-type still works on the same instance and no rejected sub-type is left usable; unexported and '-' fields are neither encoded nor written.",
    "Trusted: ref.Accept. Indexes above 65536 are outside the alphabet (dense fieldsByIndex).", "§7 C08"),
+ "C14": ("E1-enum", "bounded exhaustive enumeration of type definitions compared attribute by attribute with an independent descriptor model",
+   "Every type-in-position of the universe x configurations, every field of every field-position struct under each of the five json tag forms, all tag options, null and hand-written named types: the real Codec.Descriptor() equals ref.Descriptor on Index, Name, Type, struct TypeName, ExplicitPresence, LogicalType, element order and count, recursively. The recursive family runs in crash-attributed cases (Descriptor() must return).",
+   "Trusted: ref.Descriptor. The synthesised TypeName of map-entry pseudo structs is not compared.", "§7 C14"),
+ "C13": ("E1-enum", "bounded exhaustive enumeration of (type, value) with the Descriptor taken three ways, the real Descriptor.Read + JSONOutput, and an independent JSON-model reference compared token by token",
+   "Every type-in-position of the universe (default configuration) x boundary values (finite floats): Descriptor.Read over Marshal(v) succeeds, the output is valid JSON whose tokenised content equals ref.JSONModel(T, v) (objects with omitted fields absent, arrays element for element incl. empty elements, string-keyed maps as objects with every member, other maps as key/value lists, pointers as targets, RFC 3339 times, exact numbers), and the Descriptor restored through plenc and through encoding/json gives byte-identical output.",
+   "Trusted: encoding/json tokenizer, ref.JSONModel. Default configuration only (a Descriptor does not record the ProtoCompatible switches); negative flat ints narrower than 64 bits excluded (documented caveat).", "§7 C13"),
 }
 NOT_YET = "check not built yet (in progress); see DESIGN.md §7 for the planned model-checking design"
 
